@@ -63,166 +63,175 @@ func main() {
 		d, m, _ := eng.BuildFrozen(*seed, c, &p, o, 40+r.Intn(360))
 		res.Cases++
 		var msgs []string
+		var desc []string
 		for _, v := range d.Viol {
 			msgs = append(msgs, v.String())
 		}
-		dump := d.U.DumpEntities()
-		variant := r.Intn(4)
-		// checkpoint mode: the dump is a snapshot - the source world keeps changing (removals, recycled IDs)
-		// before the dump is loaded, and the loaded world must still reproduce the state at dump time
-		checkpoint := r.Chance(40)
-		type snap struct {
-			h     ecs.Entity
-			alive bool
-		}
-		var atDump []snap
-		for i := m.Epoch0; i < len(m.Ents); i++ {
-			if !d.H[i].IsZero() {
-				atDump = append(atDump, snap{d.H[i], m.Ents[i].Alive})
+		func() {
+			defer func() {
+				if p := recover(); p != nil {
+					msgs = append(msgs, fmt.Sprintf("a valid call panicked: %v", p))
+				}
+			}()
+			dump := d.U.DumpEntities()
+			variant := r.Intn(4)
+			// checkpoint mode: the dump is a snapshot - the source world keeps changing (removals, recycled IDs)
+			// before the dump is loaded, and the loaded world must still reproduce the state at dump time
+			checkpoint := r.Chance(40)
+			type snap struct {
+				h     ecs.Entity
+				alive bool
 			}
-		}
-		usedAtDump := m.NAlive
-		if checkpoint {
-			res.Counters["checkpoint-dumps"]++
-			var extra []ecs.Entity
-			for k := 0; k < 3+r.Intn(30); k++ {
-				switch r.Intn(3) {
-				case 0:
-					extra = append(extra, d.W.NewEntity())
-				default:
-					// remove an entity that was alive at dump time, or one created since
-					if len(extra) > 0 && r.Chance(40) {
-						j := r.Intn(len(extra))
-						d.W.RemoveEntity(extra[j])
-						extra = append(extra[:j], extra[j+1:]...)
-					} else {
-						for tries := 0; tries < 5 && len(atDump) > 0; tries++ {
-							s := atDump[r.Intn(len(atDump))]
-							if d.W.Alive(s.h) {
-								d.W.RemoveEntity(s.h)
-								break
+			var atDump []snap
+			for i := m.Epoch0; i < len(m.Ents); i++ {
+				if !d.H[i].IsZero() {
+					atDump = append(atDump, snap{d.H[i], m.Ents[i].Alive})
+				}
+			}
+			usedAtDump := m.NAlive
+			if checkpoint {
+				res.Counters["checkpoint-dumps"]++
+				var extra []ecs.Entity
+				for k := 0; k < 3+r.Intn(30); k++ {
+					switch r.Intn(3) {
+					case 0:
+						extra = append(extra, d.W.NewEntity())
+					default:
+						// remove an entity that was alive at dump time, or one created since
+						if len(extra) > 0 && r.Chance(40) {
+							j := r.Intn(len(extra))
+							d.W.RemoveEntity(extra[j])
+							extra = append(extra[:j], extra[j+1:]...)
+						} else {
+							for tries := 0; tries < 5 && len(atDump) > 0; tries++ {
+								s := atDump[r.Intn(len(atDump))]
+								if d.W.Alive(s.h) {
+									d.W.RemoveEntity(s.h)
+									break
+								}
 							}
 						}
 					}
-				}
-				res.Counters["source-ops-after-dump"]++
-			}
-		}
-		desc := []string{d.Cfg.String(), fmt.Sprintf("alive=%d issued=%d pool=%d next=%d available=%d variant=%d", m.NAlive, len(m.Ents)-m.Epoch0, len(dump.Entities), dump.Next, dump.Available, variant)}
-		// the dump may go through JSON
-		if variant%2 == 1 {
-			b, err := json.Marshal(dump)
-			if err != nil {
-				msgs = append(msgs, "json.Marshal(EntityDump): "+err.Error())
-			}
-			var d2 ecs.EntityDump
-			if err := json.Unmarshal(b, &d2); err != nil {
-				msgs = append(msgs, "json.Unmarshal(EntityDump): "+err.Error())
-			}
-			dump = d2
-			res.Counters["dumps-through-json"]++
-		}
-		// target world: fresh or reset
-		caps := [][]int{nil, {1}, {2}, {64}, {1024, 8}}[r.Intn(5)]
-		w2 := ecs.NewWorld(caps...)
-		if variant >= 2 {
-			// a world with a history, then Reset
-			tmp := []ecs.Entity{}
-			for i := 0; i < 5+r.Intn(40); i++ {
-				tmp = append(tmp, w2.NewEntity())
-			}
-			for i := 0; i < len(tmp); i += 2 {
-				w2.RemoveEntity(tmp[i])
-			}
-			w2.Reset()
-			res.Counters["loads-into-reset-world"]++
-		} else {
-			res.Counters["loads-into-fresh-world"]++
-		}
-		if p := try(func() { w2.Unsafe().LoadEntities(&dump) }); p != nil {
-			msgs = append(msgs, fmt.Sprintf("LoadEntities panicked: %v", p))
-		} else {
-			// alive/dead status of every handle issued in the source world's current epoch, as of dump time
-			for _, s := range atDump {
-				res.Counters["handles-compared"]++
-				if w2.Alive(s.h) != s.alive || (!checkpoint && d.W.Alive(s.h) != s.alive) {
-					msgs = append(msgs, fmt.Sprintf("handle %v: source Alive=%v, loaded Alive=%v, at dump time %v (checkpoint=%v)", s.h, d.W.Alive(s.h), w2.Alive(s.h), s.alive, checkpoint))
+					res.Counters["source-ops-after-dump"]++
 				}
 			}
-			if b := w2.Stats().Entities; b.Used != usedAtDump {
-				msgs = append(msgs, fmt.Sprintf("loaded world reports %d alive entities, %d were alive at dump time", b.Used, usedAtDump))
-			}
-			if n := func() int {
-				q := ecs.NewFilter0(w2).Query()
-				k := 0
-				for q.Next() {
-					k++
+			desc = append(desc, d.Cfg.String())
+			// the dump may go through JSON
+			if variant%2 == 1 {
+				b, err := json.Marshal(dump)
+				if err != nil {
+					msgs = append(msgs, "json.Marshal(EntityDump): "+err.Error())
 				}
-				return k
-			}(); n != usedAtDump {
-				msgs = append(msgs, fmt.Sprintf("a query over the loaded world visits %d entities, %d were alive at dump time", n, usedAtDump))
-			}
-			if !checkpoint {
-				if a, b := d.W.Stats().Entities, w2.Stats().Entities; a.Used != b.Used || a.Recycled != b.Recycled || a.Total != b.Total {
-					msgs = append(msgs, fmt.Sprintf("entity statistics differ after load: source %+v loaded %+v", a, b))
+				var d2 ecs.EntityDump
+				if err := json.Unmarshal(b, &d2); err != nil {
+					msgs = append(msgs, "json.Unmarshal(EntityDump): "+err.Error())
 				}
+				dump = d2
+				res.Counters["dumps-through-json"]++
 			}
-			// lockstep creations and removals
-			n := 1 + r.Intn(200)
-			var created []ecs.Entity
-			if checkpoint {
-				n = 0 // the source has moved on; lockstep comparison applies to immediate loads only
+			// target world: fresh or reset
+			caps := [][]int{nil, {1}, {2}, {64}, {1024, 8}}[r.Intn(5)]
+			w2 := ecs.NewWorld(caps...)
+			if variant >= 2 {
+				// a world with a history, then Reset
+				tmp := []ecs.Entity{}
+				for i := 0; i < 5+r.Intn(40); i++ {
+					tmp = append(tmp, w2.NewEntity())
+				}
+				for i := 0; i < len(tmp); i += 2 {
+					w2.RemoveEntity(tmp[i])
+				}
+				w2.Reset()
+				res.Counters["loads-into-reset-world"]++
+			} else {
+				res.Counters["loads-into-fresh-world"]++
 			}
-			for i := 0; i < n && len(msgs) == 0; i++ {
-				switch r.Intn(6) {
-				case 0: // batch creation
-					k := 1 + r.Intn(6)
-					var a, b []ecs.Entity
-					d.W.NewEntities(k, func(e ecs.Entity) { a = append(a, e) })
-					w2.NewEntities(k, func(e ecs.Entity) { b = append(b, e) })
-					for j := range a {
-						if j >= len(b) || a[j] != b[j] {
-							msgs = append(msgs, fmt.Sprintf("batch creation %d after load: source %v, loaded %v", i, a, b))
-							break
+			if p := try(func() { w2.Unsafe().LoadEntities(&dump) }); p != nil {
+				msgs = append(msgs, fmt.Sprintf("LoadEntities panicked: %v", p))
+			} else {
+				// alive/dead status of every handle issued in the source world's current epoch, as of dump time
+				for _, s := range atDump {
+					res.Counters["handles-compared"]++
+					if w2.Alive(s.h) != s.alive || (!checkpoint && d.W.Alive(s.h) != s.alive) {
+						msgs = append(msgs, fmt.Sprintf("handle %v: source Alive=%v, loaded Alive=%v, at dump time %v (checkpoint=%v)", s.h, d.W.Alive(s.h), w2.Alive(s.h), s.alive, checkpoint))
+					}
+				}
+				if b := w2.Stats().Entities; b.Used != usedAtDump {
+					msgs = append(msgs, fmt.Sprintf("loaded world reports %d alive entities, %d were alive at dump time", b.Used, usedAtDump))
+				}
+				if n := func() int {
+					q := ecs.NewFilter0(w2).Query()
+					k := 0
+					for q.Next() {
+						k++
+					}
+					return k
+				}(); n != usedAtDump {
+					msgs = append(msgs, fmt.Sprintf("a query over the loaded world visits %d entities, %d were alive at dump time", n, usedAtDump))
+				}
+				if !checkpoint {
+					if a, b := d.W.Stats().Entities, w2.Stats().Entities; a.Used != b.Used || a.Recycled != b.Recycled || a.Total != b.Total {
+						msgs = append(msgs, fmt.Sprintf("entity statistics differ after load: source %+v loaded %+v", a, b))
+					}
+				}
+				// lockstep creations and removals
+				n := 1 + r.Intn(200)
+				var created []ecs.Entity
+				if checkpoint {
+					n = 0 // the source has moved on; lockstep comparison applies to immediate loads only
+				}
+				for i := 0; i < n && len(msgs) == 0; i++ {
+					switch r.Intn(6) {
+					case 0: // batch creation
+						k := 1 + r.Intn(6)
+						var a, b []ecs.Entity
+						d.W.NewEntities(k, func(e ecs.Entity) { a = append(a, e) })
+						w2.NewEntities(k, func(e ecs.Entity) { b = append(b, e) })
+						for j := range a {
+							if j >= len(b) || a[j] != b[j] {
+								msgs = append(msgs, fmt.Sprintf("batch creation %d after load: source %v, loaded %v", i, a, b))
+								break
+							}
 						}
-					}
-					created = append(created, a...)
-					res.Counters["lockstep-creations"] += int64(k)
-				case 1: // removal in both
-					if len(created) > 0 {
-						j := r.Intn(len(created))
-						e := created[j]
-						created = append(created[:j], created[j+1:]...)
-						p1 := try(func() { d.W.RemoveEntity(e) })
-						p2 := try(func() { w2.RemoveEntity(e) })
-						if p1 != nil || p2 != nil {
-							msgs = append(msgs, fmt.Sprintf("lockstep removal of %v: source panic %v, loaded panic %v", e, p1, p2))
+						created = append(created, a...)
+						res.Counters["lockstep-creations"] += int64(k)
+					case 1: // removal in both
+						if len(created) > 0 {
+							j := r.Intn(len(created))
+							e := created[j]
+							created = append(created[:j], created[j+1:]...)
+							p1 := try(func() { d.W.RemoveEntity(e) })
+							p2 := try(func() { w2.RemoveEntity(e) })
+							if p1 != nil || p2 != nil {
+								msgs = append(msgs, fmt.Sprintf("lockstep removal of %v: source panic %v, loaded panic %v", e, p1, p2))
+							}
+							res.Counters["lockstep-removals"]++
 						}
-						res.Counters["lockstep-removals"]++
+					default:
+						a := d.W.NewEntity()
+						b := w2.NewEntity()
+						if a != b {
+							msgs = append(msgs, fmt.Sprintf("creation %d after load: source returns %v, loaded world %v", i, a, b))
+						}
+						created = append(created, a)
+						res.Counters["lockstep-creations"]++
 					}
-				default:
-					a := d.W.NewEntity()
-					b := w2.NewEntity()
-					if a != b {
-						msgs = append(msgs, fmt.Sprintf("creation %d after load: source returns %v, loaded world %v", i, a, b))
+				}
+				for _, e := range created {
+					if !w2.Alive(e) || !d.W.Alive(e) {
+						msgs = append(msgs, fmt.Sprintf("entity %v created after load is not alive in both worlds", e))
+						break
 					}
-					created = append(created, a)
-					res.Counters["lockstep-creations"]++
 				}
 			}
-			for _, e := range created {
-				if !w2.Alive(e) || !d.W.Alive(e) {
-					msgs = append(msgs, fmt.Sprintf("entity %v created after load is not alive in both worlds", e))
-					break
-				}
+			// loading into a non-empty world must be rejected
+			w3 := ecs.NewWorld()
+			w3.NewEntity()
+			if try(func() { w3.Unsafe().LoadEntities(&dump) }) == nil {
+				msgs = append(msgs, "LoadEntities into a world with entities did not panic")
 			}
-		}
-		// loading into a non-empty world must be rejected
-		w3 := ecs.NewWorld()
-		w3.NewEntity()
-		if try(func() { w3.Unsafe().LoadEntities(&dump) }) == nil {
-			msgs = append(msgs, "LoadEntities into a world with entities did not panic")
-		}
+			desc = append(desc, fmt.Sprintf("alive=%d issued=%d pool=%d next=%d available=%d variant=%d checkpoint=%v", usedAtDump, len(atDump), len(dump.Entities), dump.Next, dump.Available, variant, checkpoint))
+		}()
 		res.Hashes[fmt.Sprintf("%x-%d", *seed, c)] = len(m.Ents) >= 5
 		if len(msgs) > 0 {
 			res.Violations = append(res.Violations, map[string]any{"case": c, "seed": *seed, "config": d.Cfg.String(), "violations": msgs[:min(len(msgs), 10)], "ops": desc})
